@@ -109,7 +109,7 @@ def run(ctx):
     ctx.mc("loop", "Periodic", "MC_Periodic.cfg", required_actions=["Start", "Stop", "Tick", "Done"],
            overrides=ctx.pick({}, {"Periods": "{1, 2, 3, 4, 5, 6}", "Ticks": full_ticks, "Back": 4, "MaxWall": 18, "MaxMono": 9}),
            timeout=ctx.pick(300, 2400))
-    runs = ctx.pick([{"L": 5}],
+    runs = ctx.pick([{"L": 5, "Ticks": "{41, 31, 11, 101}"}],
                     [{"L": 6, "Kinds": '{"sync", "coro", "raise"}'},
                      {"L": 5, "Periods": "{1, 5}", "Kinds": '{"sync", "coro", "cororaise"}', "Ticks": "{41, 52, 31, 11, 101, 30, 73}"}])
     for ov in runs:
@@ -118,7 +118,7 @@ def run(ctx):
                    nontrivial=lambda e, p: any(s["act"] == "tick" for s in p) and any(s["act"] == "start" for s in p))
     # extension: start() offered again while an invocation is still in flight (after stop)
     rp = ctx.gen_paths("loop", "Gen_Periodic", "Gen_Periodic.cfg",
-                       overrides={"L": ctx.pick(6, 7), "Restart": 1, "Periods": "{2}", "Ticks": "{41, 52, 62}",
+                       overrides={"L": ctx.pick(5, 7), "Restart": 1, "Periods": "{2}", "Ticks": "{41, 52, 62}",
                                   "Kinds": ctx.pick('{"coro"}', '{"coro", "cororaise", "sync"}')})
     rp = [(e, p) for e, p in rp if sum(1 for s in p if s["act"] == "start") > 1]
     ctx.replay(rp, periodic_replayer, label="s2c-periodic-restart")
